@@ -1,6 +1,6 @@
 """C09 - the battle summary is a faithful function of the recorded events."""
 import os, json, random, tempfile, shutil, traceback
-from tools import common, battle, recordings, gen_controllers, summarycheck
+from tools import common, battle, recordings, gen_controllers, summarycheck, synth
 from tools.gen_const import GEN_DIR
 LEVEL = 'proof'
 
@@ -144,6 +144,25 @@ def run(ctx):
                                            how='tools/battle.write_wows(path, "%s", random.Random(seed), **variant); ReplayParser(path, strict=True).get_info()["hidden"]' % v))
                         break
                 os.unlink(p)
+        # a LONG recording: 72 MiB of packet stream (one unmapped packet of that size right behind the player creation), everything else behind it -
+        # the summary still reports what the whole stream contains (library against the generator's expectations only; the model is not run on it)
+        from tools import c15 as c15_
+        vlong = versions[-1]
+        bl_, vsl = battle.build_wows(vlong, random.Random(77), join=(vlong not in known_c10), battle_end=(vlong not in known_end))
+        huge = synth.frame(0x99, 0, bytes(72 * 2 ** 20))
+        pl_ = os.path.join(tmp, 'long.wowsreplay'); c15_.fast_write(pl_, 'wowsreplay', json.dumps({'clientVersionFromXml': vsl}).encode(), b''.join(bl_.out[:3]) + huge + b''.join(bl_.out[3:]), level=1)
+        del huge
+        ctx.case(('wows-long', vlong)); ctx.count('variant:long-stream')
+        try:
+            info_ = ReplayParser(pl_, strict=True).get_info(); hl_ = info_['hidden']
+            dl_ = compare(bl_, hl_, vlong) if hl_ is not None else [('hidden', 'a summary', None)]
+        except Exception as ex: dl_ = [('parse', 'no exception', '%s: %s' % (type(ex).__name__, str(ex)[:120]))]
+        dl_ = [x for x in dl_ if not (x[0] == 'map' and x[2] == bl_.expect['map_raw'].lstrip('spaces/'))]
+        if dl_:
+            field, want, got = dl_[0]
+            ctx.violation(dict(kind='summary-field', version='wows/' + vlong, variant='a 72 MiB unmapped packet (type 0x99, zero bytes) behind the third packet of the battle', field=field, expected=want, implementation=got,
+                               how='tools/battle.build_wows("%s", random.Random(77)); the stream with that packet inserted, in a container (tools/c15.fast_write); ReplayParser(path, strict=True).get_info()["hidden"]' % vlong))
+        os.unlink(pl_)
         # real recordings: the translated program against the controller on everything a real battle delivers
         recs = [f for f in recordings.list_recordings() if f.endswith('.wowsreplay') and os.path.getsize(f) > 1000]
         for f in (recs[::9] if ctx.tier == 'quick' else recs):
